@@ -23,6 +23,17 @@ def drive(ctx, fmt, n_cases, precisions, hostile=True, fixture_precisions=(), ke
             import traceback
             ctx.violation("%s/harness/generator-raises-%s" % (prop, type(e).__name__), traceback.format_exc()[-600:], {"i": i})
             continue
+        if fmt == "pb" and defaults:
+            # a light whose cycle object exists but has no elements yet (TrafficLightCycle() with its constructor defaults):
+            # the format distinguishes it from a light without cycle
+            try:
+                import numpy as _np
+                from commonroad.scenario.traffic_light import TrafficLight, TrafficLightCycle
+                lid_ = sc.lanelet_network.lanelets[0].lanelet_id
+                sc.add_objects(TrafficLight(sc.generate_object_id(), _np.array([3.0, 4.0]), TrafficLightCycle()), {lid_})
+                ctx.feature("light.cycle-without-elements")
+            except Exception as e:  # noqa
+                ctx.violation("%s/harness/empty-cycle-light-%s" % (prop, type(e).__name__), repr(e)[:200], {"i": i})
         ps = precisions(i)
         # header information given to the WRITER overrides the scenario's (author, affiliation, source, tags)
         meta = {}
